@@ -37,6 +37,6 @@ def replay(ctx, path):
     c = r.get("case") or r.get("event")
     tr = os.path.join(ctx.scratch, "one_tr.ndjson")
     # re-run the real decoder on the string, then let the spec judge
-    f = os.path.join(ctx.scratch, "one.ndjson"); open(f, "w").write(json.dumps(c) + "\n")
+    f = os.path.join(ctx.scratch, "one.ndjson"); open(f, "w").write("".join(json.dumps(x) + "\n" for x in (c if isinstance(c, list) else [c])))
     out = os.path.join(ctx.scratch, "one_res.ndjson")
     ctx.vh_ok(["c02-replay", f, out]); run_results(ctx, out, "replay")
